@@ -151,7 +151,7 @@ fn real_headers_eq(a: &Headers, b: &Headers) -> bool {
 }
 
 /// the three-way check on one block made of `lines`
-fn c15_check_lines(lines: &[Vec<u8>], terminator: usize) -> Result<(), Fail> {
+pub fn c15_check_lines(lines: &[Vec<u8>], terminator: usize) -> Result<(), Fail> {
     let mut block = Vec::new();
     for (i, l) in lines.iter().enumerate() {
         if i > 0 {
@@ -385,7 +385,7 @@ fn c15_plan(tier: Tier) -> Vec<Job> {
 pub fn c15() -> PropDef {
     PropDef {
         id: "C15",
-        subs: vec![("blocks", c15_blocks), ("pairs", c15_pairs), ("cases", c15_cases)],
+        subs: vec![("blocks", c15_blocks), ("pairs", c15_pairs), ("cases", c15_cases), ("raw", crate::props::raw::c15_raw)],
         plan: c15_plan,
         rule: "case = header block of 0..6 lines (recognised names in letter-case patterns and SP/HTAB/Unicode/CR/LF padding with supported/unsupported/malformed values, other names, 0/1/several colons, invalid UTF-8) plus one raw Accept-Encoding value; oracle = independent statement of the header rules, checked three ways (block vs rules, block vs line-by-line fold, per-line outcome class) + Encoding::try_from vs identity rule; non-trivial = a recognised name with non-canonical case or padding, a duplicate name, or a faulty line",
         assumptions: vec![
@@ -1511,7 +1511,7 @@ fn c14_plan(tier: Tier) -> Vec<Job> {
 pub fn c14() -> PropDef {
     PropDef {
         id: "C14",
-        subs: vec![("diff", c14_diff), ("edit", c14_edit)],
+        subs: vec![("diff", c14_diff), ("edit", c14_edit), ("raw", crate::props::raw::c14_raw)],
         plan: c14_plan,
         rule: "case = one byte slice from the request grammar with corruptions, with/without trailing bytes or truncation; oracle = differential between Request::try_from and an HttpConnection fed the slice (payload limit 2^32-1, whole-window reads): forward (accepted => same first request), converse (exactly one request with nothing left => accepted with the same fields, except GET declaring a body), and the max_len rule at len-1/len/len+1; REF referees comparability (line limit); non-trivial = the slice has >=1 byte after its first CRLF beyond the blank line",
         assumptions: vec!["slices whose first request has a line longer than the receive window are outside the comparable set (the statement says 'within the line and payload limits')"],
